@@ -147,10 +147,30 @@ def run(ctx):
             if rng.random() < 0.15:
                 Tl[:] = Tl[0]
             h = rng.uniform(0.5, 10)
-            ro = Rodgers2000(temperature_layers=list(Tl), correlation_length=h)
-            ro.initialize_profile(planet, n, P)
-            prof = np.array(ro.profile, float)
             prm = dict(kind='rodgers', T=Tl, h=h, pressure=P)
+            if i % 4 == 0:
+                # a retrieval: the profile is built with other layer temperatures, read once, then every layer
+                # temperature (and the correlation length) is written through the fitting parameters and it is read again
+                ro = Rodgers2000(temperature_layers=[rng.uniform(300, 2500) for _ in range(n)],
+                                 correlation_length=rng.uniform(0.5, 10))
+                ro.initialize_profile(planet, n, P)
+                np.array(ro.profile, float)
+                fp = ro.fitting_parameters()
+                writes = [('T_%d' % (j + 1), float(v)) for j, v in enumerate(Tl)]
+                rng.shuffle(writes)
+                if rng.random() < 0.5:
+                    writes.insert(rng.randrange(len(writes) + 1), ('correlation_length', h))
+                else:
+                    fp['correlation_length'][3](h)
+                    np.array(ro.profile, float)
+                for nm_, v_ in writes:
+                    fp[nm_][3](v_)
+                ctx.count('rodgers:layers-set-through-fitting-parameters')
+                prm = dict(prm, set_in_order=[w_[0] for w_ in writes])
+            else:
+                ro = Rodgers2000(temperature_layers=list(Tl), correlation_length=h)
+                ro.initialize_profile(planet, n, P)
+            prof = np.array(ro.profile, float)
             oracle_range(ctx, 'rodgers', prof, n, list(Tl), prm)
             cov = np.exp(-1.0 * np.abs(np.log(P[:, None] / P[None, :])) / h)
             if n <= ctx.n(13, 33):     # exact rational evaluation of an n x n covariance is costly
